@@ -7,6 +7,7 @@ from sa.deps import Facts, names_in, pseudo
 from sa.loader import AnalysisError, own_nodes
 from sa.model import u, where
 from sa.paths import Enumerator, path_nodes
+from sa.pattern import find_expr, find_stmt, has_expr, has_stmt, match_expr, match_stmt
 
 TEMPORAL = ('date', 'time', 'datetime')
 FORMATS = {'CSVFormat': dict(format='csv', suffix='.csv'), 'JSONFormat': dict(format='json', suffix='.json')}
@@ -161,7 +162,8 @@ def check(ctx):
         run.check(isinstance(st.get('encoding'), ast.Constant) and st['encoding'].value == 'utf-8', 'R16p', pr.where, pr.qualname,
                   "descriptor['encoding'] = 'utf-8'", 'the stamped encoding is not utf-8')
         p = st.get('path')
-        run.check(p is not None and 'with_suffix(%r)' % want['suffix'] in u(p) and "['path']" in u(p), 'R16p', pr.where,
+        run.check(p is not None and (match_expr("str(Path(_d['path']).with_suffix(%r))" % want['suffix'], p) is not None or
+                                     match_expr("os.path.splitext(_d['path'])[0] + %r" % want['suffix'], p) is not None), 'R16p', pr.where,
                   pr.qualname, "descriptor['path'] = <path>.with_suffix(%r)" % want['suffix'],
                   'the stamped path does not carry the %s suffix of the written file' % want['suffix'])
         sup = [n for n in own_nodes(pr.node) if isinstance(n, ast.Call) and isinstance(n.func, ast.Attribute)
@@ -169,15 +171,13 @@ def check(ctx):
         run.check(len(sup) == 1 and [pseudo(a) for a in sup[0].args] == [pr.params[1]], 'R16p', pr.where, pr.qualname,
                   'super().prepare_resource(resource)', 'the per-type dialect is not merged into the fields (no super call)')
     bp = base.methods['prepare_resource']
-    body = u(bp.node)
-    run.check("['schema']['fields']" in body and 'field.update(cls.PYTHON_DIALECT.get(field[' in body.replace('\n', ''), 'R16p',
+    run.check(len(find_stmt("for _f in _r.descriptor['schema']['fields']:\n    _f.update(cls.PYTHON_DIALECT.get(_f['type'], {}))", bp.node)) == 1, 'R16p',
               bp.where, bp.qualname, "field.update(cls.PYTHON_DIALECT.get(field['type'], {}))",
               'FileFormat.prepare_resource does not merge PYTHON_DIALECT[type] into each field')
     # the dumper calls prepare_resource of the selected class and stores the resulting descriptor back
     fd = commits.file_dumper(ctx)
     pd = fd.methods['process_datapackage']
-    body = u(pd.node)
-    run.check('.prepare_resource(resource)' in body and "datapackage.descriptor['resources'][i] = resource.descriptor" in body,
+    run.check(has_expr('__F.prepare_resource(_r)', pd.node) and has_stmt("_dp.descriptor['resources'][_i] = _r.descriptor", pd.node),
               'R16p', pd.where, pd.qualname, 'prepare_resource(resource); descriptor[resources][i] = resource.descriptor',
               'the prepared resource descriptor is not written back into the package')
 
@@ -197,11 +197,13 @@ def check(ctx):
     run.check(okn, 'NULL', tv.where, tv.qualname, 'if value is None: return self.NULL_VALUE (first statement)',
               'None is handed to a serializer (or something other than the null marker is written)')
     tr = [m for n, m in base.methods.items() if n.endswith('__transform_row')][0]
-    run.check('self.fields[k]' in u(tr.node) and 'row.items()' in u(tr.node), 'NULL', tr.where, tr.qualname,
+    run.check(has_expr('dict(((_k, __T(_v, self.fields[_k])) for (_k, _v) in _row.items()))', tr.node) or
+              has_expr('{_k: __T(_v, self.fields[_k]) for (_k, _v) in _row.items()}', tr.node), 'NULL', tr.where, tr.qualname,
               'dict((k, transform(v, self.fields[k])) for k, v in row.items())',
               'row values are not transformed with the serializer of their own field')
     wr = base.methods['write_row']
-    run.check('write_transformed_row(' in u(wr.node) and '__transform_row(row)' in u(wr.node), 'NULL', wr.where, wr.qualname,
+    run.check((has_stmt('_t = __TR(_row)', wr.node) and has_expr('self.write_transformed_row(_t)', wr.node)) or
+              has_expr('self.write_transformed_row(__TR(_row))', wr.node), 'NULL', wr.where, wr.qualname,
               'write_transformed_row(transform_row(row))', 'rows are written untransformed')
 
     run.rule('R16o', 'COLUMN-ORDER: a format that writes each row as a JSON object is read back column-wise in sorted key order '
@@ -254,13 +256,16 @@ def check(ctx):
                if isinstance(n, ast.Compare) and isinstance(n.ops[0], ast.In) and 'type' in u(n.left)]
     run.check(len(a_types) == 1 and len(b_types) == 1 and sorted(a_types[0]) == sorted(b_types[0]) == sorted(TEMPORAL), 'TFP',
               hd.where, hd.qualname, 'types %s / %s' % (a_types, b_types), 'writer override and descriptor rewrite cover different types')
-    a_prop = 'field.descriptor.get(self.temporal_format_property' in u(finit.node)
-    b_prop = 'field.pop(self.temporal_format_property' in u(hd.node) and "field['format'] = format" in u(hd.node)
+    a_prop = has_expr('_f.descriptor.get(self.temporal_format_property, None)', finit.node) or \
+        has_expr('_f.descriptor.get(self.temporal_format_property)', finit.node)
+    b_prop = (has_stmt('_fmt = _f.pop(self.temporal_format_property, None)', hd.node) or
+              has_stmt('_fmt = _f.get(self.temporal_format_property)', hd.node)) and has_stmt("_f['format'] = _fmt", hd.node)
     run.check(a_prop and b_prop, 'TFP', hd.where, hd.qualname, 'same property on both sides',
               'the format written with and the format stamped come from different field properties')
     # the property reaches the writer
     p1 = fd.methods['process_resource']
-    run.check("writer_kwargs['temporal_format_property'] = self.temporal_format_property" in u(p1.node), 'TFP', p1.where,
+    run.check(has_stmt("_kw['temporal_format_property'] = self.temporal_format_property", p1.node) or
+              has_expr('__F(..., temporal_format_property=self.temporal_format_property)', p1.node), 'TFP', p1.where,
               p1.qualname, 'writer gets temporal_format_property', 'the writer is not told about temporal_format_property')
     run.trusted += ['LF2 tabulator sorts the keys of JSON object rows', 'LF3 csv.DictWriter without dialect arguments uses csv.excel '
                     '(attribute values read from the stdlib)', 'LF4 default missingValues is [""]',
